@@ -611,6 +611,10 @@ class RelativeJSONPointer:
             parts.extend(self.pointer.parts)
         else:
             assert self.pointer == "#"
+            if not parts:
+                raise RelativeJSONPointerIndexError(
+                    "the root value has no key or index ('#')"
+                )
             parts[-1] = f"#{parts[-1]}"
 
         return JSONPointer.from_parts(
